@@ -5,6 +5,7 @@ import (
 	"fmt"
 	"math/big"
 	"os"
+	"strings"
 
 	ike "github.com/free5gc/ike"
 	"github.com/free5gc/ike/eap"
@@ -120,12 +121,15 @@ func libUnprotect(b []byte, preparse bool, key *security.IKESAKey, initiator boo
 		lm, err = ike.DecodeDecrypt(b, hdr, key, role(initiator))
 		if err == nil {
 			if lm == nil {
-				err = fmt.Errorf("DecodeDecrypt returned nil message and nil error")
-				return
+				// neither a value nor an error: reported through the panic channel so that every caller judges it
+				panic("DecodeDecrypt returned (nil message, nil error)")
 			}
 			m = bridge.ObserveMsg(lm)
 		}
 	})
+	if p != nil && p.Site == "(outside free5gc/ike)" && strings.HasPrefix(p.Value, "DecodeDecrypt returned (nil") {
+		p.Site = "github.com/free5gc/ike.DecodeDecrypt"
+	}
 	return
 }
 
